@@ -771,6 +771,53 @@ Qed.
 Lemma after_call_errpc r : errpc (after_call r) = match r with Some _ => true | None => false end.
 Proof. destruct r; reflexivity. Qed.
 
+(* a worker moves; started / finished / error cell / contexts are untouched, the counter may grow *)
+Lemma InvC_local s s' w p p' :
+  InvC s ->
+  cfg s' = cfg s -> pc s' = pc s -> started s' = started s -> finished s' = finished s ->
+  errc s' = errc s -> cctx s' = cctx s -> ws s' = upd (ws s) w p' -> next s <= next s' ->
+  nth_error (ws s) w = Some p -> p <> WDone ->
+  (forall j, held p = Some j -> held p' = Some j \/ errpc p' = true) ->
+  (forall i, next s <= i -> i < next s' -> i < c_n (cfg s) -> held p' = Some i) ->
+  (errpc p = true -> errpc p' = true \/ errc s <> None) ->
+  (p' = WRet None \/ p' = WDone -> bad s' \/ c_n (cfg s) <= next s') ->
+  (forall c, p' = WRet (Some (EF c)) -> exists i v, In (i, Some c, v) (finished s)) ->
+  (p' = WRet (Some ECtx) -> (cctx s = CDone \/ errc s <> None) /\ use_eg (cfg s) = true) ->
+  InvC s'.
+Proof.
+  intros HC Ec Ep Es Ef Ee Ex Ew Hn Hw Hnd Hheld Hnew Herr Hfin HrF HrC.
+  assert (Hmono : bad s -> bad s').
+  { apply (bad_upd s s' w p p'); auto; rewrite Ee; auto. }
+  constructor; rewrite ?Ec, ?Ep, ?Es, ?Ef, ?Ee, ?Ex.
+  - apply (C_idle s HC).
+  - intros Hnb i Hi Hlt. rewrite Ew.
+    destruct (lt_dec i (next s)) as [Hold|Hnew'].
+    + assert (Hc : In i (started s) \/ exists w2 q, nth_error (ws s) w2 = Some q /\ held q = Some i)
+        by (apply (C_cov s HC); auto).
+      destruct Hc as [Hc|(w2 & q & Hq & Eq)]; [left; exact Hc|]. right.
+      destruct (Nat.eq_dec w w2) as [E|E].
+      * subst w2. rewrite Hw in Hq. inversion Hq; subst q. destruct (Hheld i Eq) as [H|H].
+        -- exists w, p'. split; [eapply nth_upd_same; eauto | exact H].
+        -- exfalso. apply Hnb. right. exists w, p'. split; [|exact H]. rewrite Ew. eapply nth_upd_same; eauto.
+      * exists w2, q. split; [|exact Eq]. rewrite nth_upd. destruct (Nat.eq_dec w w2); [contradiction|exact Hq].
+    + right. exists w, p'. split; [eapply nth_upd_same; eauto|]. apply Hnew; [lia | exact Hi | exact Hlt].
+  - intros w2 q Hq Hp. rewrite Ew in Hq. apply nth_upd_inv in Hq. destruct Hq as [[_ ->]|[_ Hq]].
+    + apply Hfin. exact Hp.
+    + destruct (C_fin s HC w2 q Hq Hp) as [H|H]; [left; auto | right; lia].
+  - intros x Hx Hf. apply Hmono. apply (C_failrec s HC x Hx Hf).
+  - apply (C_errF s HC).
+  - apply (C_errC s HC).
+  - intros w2 c Hq. rewrite Ew in Hq. apply nth_upd_inv in Hq. destruct Hq as [[_ E]|[_ Hq]].
+    + apply HrF. symmetry; exact E.
+    + apply (C_retF s HC w2 c Hq).
+  - intros w2 Hq. rewrite Ew in Hq. apply nth_upd_inv in Hq. destruct Hq as [[_ E]|[_ Hq]].
+    + apply HrC. symmetry; exact E.
+    + apply (C_retC s HC w2 Hq).
+  - apply (C_noerr s HC).
+  - intros Hs He w2 q Hq. exfalso. apply Hnd. apply (C_seq1 s HC Hs He w p Hw).
+  - apply (C_seqfail s HC).
+Qed.
+
 Lemma InvC_step c s l s' : InvA s -> InvB c s -> InvC s -> qstep s l = Some s' -> InvC s'.
 Proof.
   intros HA HB HC H. pose proof (B_cfg c s HB) as Hcfg.
@@ -818,16 +865,856 @@ Proof.
     + apply (C_noerr s HC).
     + intros Hs He w2 p Hq. pose proof (C_seq1 s HC Hs He w _ Hw). discriminate.
     + apply (C_seqfail s HC).
-  - admit.
-  - admit.
-  - admit.
-  - admit.
-  - admit.
-  - admit.
-  - admit.
-  - admit.
-  - admit.
-  - admit.
-  - admit.
-  - admit.
-Admitted.
+  - (* LExit *) apply step_LExit in H. destruct H as (Hw & Hg & Hr & Hv & ->).
+    set (pn := if c_map (cfg s) then WWrite i v r else after_call r).
+    set (s1 := mkSt (cfg s) (pc s) (upd (ws s) w pn) (next s) (cctx s) (dctx s) (errc s) (out s) (gopen s)
+                    (owner s) (started s) (finished s ++ [(i, r, v)]) (cstarts s)).
+    assert (Hpn : pn = WWrite i v r \/ pn = after_call r) by (unfold pn; destruct (c_map (cfg s)); auto).
+    assert (Hmono : bad s -> bad s1) by (apply (bad_upd s s1 w (WIn i) pn); simpl; auto; discriminate).
+    assert (Hnh : held pn = None) by (destruct Hpn as [-> | ->]; [reflexivity | destruct r; reflexivity]).
+    constructor; simpl; fold pn.
+    + intros E. destruct (A_idle s HA E) as [E' _]. rewrite E' in Hw. destruct w; discriminate.
+    + intros Hnb j Hj Hn. fold s1 in Hnb.
+      assert (Hold : In j (started s) \/ exists w2 q, nth_error (ws s) w2 = Some q /\ held q = Some j)
+        by (apply (C_cov s HC); auto).
+      destruct Hold as [Hs|(w2 & q & Hq & Eq)]; [left; exact Hs|]. right.
+      destruct (Nat.eq_dec w w2) as [E|E].
+      * subst w2. rewrite Hw in Hq. inversion Hq; subst q. discriminate.
+      * exists w2, q. split; [|exact Eq]. rewrite nth_upd. destruct (Nat.eq_dec w w2); [contradiction|exact Hq].
+    + intros w2 p Hq Hp. apply nth_upd_inv in Hq. destruct Hq as [[_ ->]|[_ Hq]].
+      * exfalso. destruct Hpn as [E|E]; rewrite E in Hp; destruct Hp as [Hp|Hp]; try discriminate;
+          destruct r; discriminate.
+      * destruct (C_fin s HC w2 p Hq Hp) as [Hb|Hn]; [left; auto | right; exact Hn].
+    + intros x Hx Hf. fold s1. apply in_app_iff in Hx. destruct Hx as [Hx|[<-|[]]].
+      * apply Hmono. apply (C_failrec s HC x Hx Hf).
+      * unfold ferr in Hf. simpl in Hf. right. exists w, pn. split; [simpl; eapply nth_upd_same; eauto|].
+        destruct r as [c0|]; [|congruence]. destruct Hpn as [-> | ->]; reflexivity.
+    + intros c0 He. destruct (C_errF s HC c0 He) as (j & u & Hj). exists j, u. apply in_app_iff. left; exact Hj.
+    + apply (C_errC s HC).
+    + intros w2 c0 Hq. apply nth_upd_inv in Hq. destruct Hq as [[_ E]|[_ Hq]].
+      * destruct Hpn as [E'|E']; rewrite E' in E; [discriminate|]. destruct r as [c1|]; [|discriminate].
+        simpl in E. inversion E; subst c1. exists i, v. apply in_app_iff. right; left; reflexivity.
+      * destruct (C_retF s HC w2 c0 Hq) as (j & u & Hj). exists j, u. apply in_app_iff. left; exact Hj.
+    + intros w2 Hq. apply nth_upd_inv in Hq. destruct Hq as [[_ E]|[_ Hq]].
+      * destruct Hpn as [E'|E']; rewrite E' in E; [discriminate|]. destruct r; discriminate.
+      * apply (C_retC s HC w2 Hq).
+    + intros Hx x Hin. apply in_app_iff in Hin. destruct Hin as [Hin|[<-|[]]].
+      * apply (C_noerr s HC Hx x Hin).
+      * unfold ferr. simpl. apply Hr. exact Hx.
+    + intros Hs He w2 p Hq. pose proof (C_seq1 s HC Hs He w _ Hw). discriminate.
+    + intros Hs x y Hx Hy Fx Fy.
+      assert (Hnb : ~ bad s).
+      { intros [Hb|(w2 & q & Hq & Eq)].
+        - pose proof (C_seq1 s HC Hs Hb w _ Hw). discriminate.
+        - rewrite <- Hcfg in HB. assert (w2 = w) by (eapply (seq_single (cfg s) s w w2); eauto; eapply nth_lt; eauto).
+          subst w2. rewrite Hw in Hq. inversion Hq; subst q. discriminate. }
+      assert (Hold : forall z, In z (finished s) -> ferr z <> None -> False).
+      { intros z Hz Fz. apply Hnb. apply (C_failrec s HC z Hz Fz). }
+      apply in_app_iff in Hx. apply in_app_iff in Hy.
+      destruct Hx as [Hx|[<-|[]]]; [exfalso; eauto|]. destruct Hy as [Hy|[<-|[]]]; [exfalso; eauto|]. reflexivity.
+  - (* LRet *) apply step_LRet in H. destruct H as (Hp & Ho & ->).
+    apply (InvC_same s); simpl; auto. discriminate.
+  - (* LCancel *) apply step_LCancel in H. subst s'. apply (InvC_same s); simpl; auto.
+    intros E; rewrite E; reflexivity.
+  - (* LCancelDone *) apply step_LCancelDone in H. destruct H as [_ ->]. exact HC.
+  - (* LRelease *) apply step_LRelease in H. subst s'. apply (InvC_same s); simpl; auto.
+  - (* LQuiesce *) apply qstep_LQuiesce in H. subst s'. exact HC.
+  - (* TFetch *) apply step_TFetch in H. destruct H as (Hw & ->).
+    set (pn := if next s <? c_n (cfg s) then (if use_eg (cfg s) then WCheck (next s) else WCall (next s)) else WRet None).
+    eapply (InvC_local s _ w WFetch pn); simpl; fold pn; eauto; try discriminate.
+    + intros j Hj Hlt Hn. assert (j = next s) by lia. subst j. unfold pn.
+      apply Nat.ltb_lt in Hn. rewrite Hn. destruct (use_eg (cfg s)); reflexivity.
+    + intros Hp. right. unfold pn in Hp. destruct (next s <? c_n (cfg s)) eqn:E.
+      * destruct (use_eg (cfg s)); destruct Hp; discriminate.
+      * apply Nat.ltb_ge in E. lia.
+    + intros c0 E. unfold pn in E. destruct (next s <? c_n (cfg s)), (use_eg (cfg s)); discriminate.
+    + intros E. unfold pn in E. destruct (next s <? c_n (cfg s)), (use_eg (cfg s)); discriminate.
+  - (* TCheck *) apply step_TCheck in H. destruct H as (i & Hw & ->).
+    set (pn := if dctx s then WRet (Some ECtx) else WCall i).
+    eapply (InvC_local s _ w (WCheck i) pn); simpl; fold pn; eauto; try discriminate.
+    + intros j E. inversion E; subst j. unfold pn. destruct (dctx s); [right|left]; reflexivity.
+    + intros j Hj Hlt. lia.
+    + intros Hp. unfold pn in Hp. destruct (dctx s); destruct Hp; discriminate.
+    + intros c0 E. unfold pn in E. destruct (dctx s); discriminate.
+    + intros E. unfold pn in E. destruct (dctx s) eqn:Hd; [|discriminate].
+      assert (Hu : use_eg c = true).
+      { destruct (use_eg c) eqn:Eu; [reflexivity|]. exfalso. eapply (B_nochk c s HB Eu); eauto. }
+      rewrite Hcfg. split; [|exact Hu].
+      destruct (B_dctx c s HB Hd) as [Hx|(_ & [Hx|(r & Hr)])]; auto.
+      exfalso. destruct (B_retp c s HB r Hr) as (_ & Hall & _). specialize (Hall w _ Hw). discriminate.
+  - (* TWrite *) apply step_TWrite in H. destruct H as (i & v & r & Hw & ->).
+    eapply (InvC_local s _ w (WWrite i v r) (after_call r)); simpl; eauto; try discriminate.
+    + intros j Hj Hlt. lia.
+    + intros Hp. left. rewrite after_call_errpc. destruct r; [reflexivity|discriminate].
+    + intros Hp. destruct r; destruct Hp; discriminate.
+    + intros c0 E. destruct r as [c1|]; [|discriminate]. simpl in E. inversion E; subst c1.
+      exists i, v. apply (A_wr_fin s HA w i v (Some c0) Hw).
+    + intros E. destruct r; discriminate.
+  - (* TFinish *) apply step_TFinish in H. destruct H as (r & Hw & [(e & -> & He & ->)|(Hr & ->)]).
+    + (* the first error is recorded *)
+      set (s1 := mkSt (cfg s) (pc s) (upd (ws s) w WDone) (next s) (cctx s) (dctx s || use_eg (cfg s)) (Some e)
+                      (out s) (gopen s) (owner s) (started s) (finished s) (cstarts s)).
+      assert (Hb1 : bad s1) by (left; simpl; discriminate).
+      constructor; simpl; fold s1.
+      * intros E. destruct (A_idle s HA E) as [E' _]. rewrite E' in Hw. destruct w; discriminate.
+      * intros Hnb. contradiction.
+      * intros; left; exact Hb1.
+      * intros; exact Hb1.
+      * intros c0 E. inversion E; subst e. apply (C_retF s HC w c0 Hw).
+      * intros E. inversion E; subst e. destruct (C_retC s HC w Hw) as [[Hx|Hx] Hu]; [auto|congruence].
+      * intros w2 c0 Hq. apply nth_upd_inv in Hq. destruct Hq as [[_ E]|[_ Hq]]; [discriminate|]. apply (C_retF s HC w2 c0 Hq).
+      * intros w2 Hq. apply nth_upd_inv in Hq. destruct Hq as [[_ E]|[_ Hq]]; [discriminate|].
+        destruct (C_retC s HC w2 Hq) as [_ Hu]. split; [right; discriminate | exact Hu].
+      * apply (C_noerr s HC).
+      * intros Hs _ w2 p Hq. rewrite <- Hcfg in HB.
+        assert (w2 = w).
+        { eapply (seq_single (cfg s) s w w2); eauto. apply nth_lt in Hq. rewrite upd_length in Hq. exact Hq. }
+        subst w2. rewrite (nth_upd_same _ _ _ _ Hw) in Hq. inversion Hq; reflexivity.
+      * apply (C_seqfail s HC).
+    + eapply (InvC_local s _ w (WRet r) WDone); simpl; eauto; try discriminate.
+      * intros j Hj Hlt. lia.
+      * intros Hp. right. destruct r; [|discriminate]. destruct Hr; [discriminate|assumption].
+      * intros _. destruct r as [e|].
+        -- left. left. simpl. destruct Hr; [discriminate|assumption].
+        -- destruct (C_fin s HC w (WRet None) Hw (or_introl eq_refl)) as [Hb|Hn]; [|right; exact Hn].
+           left. eapply (bad_upd s _ w (WRet None) WDone); simpl; eauto; discriminate.
+  - (* TWait *) apply step_TWait in H. destruct H as (Hp & Hall & ->).
+    apply (InvC_same s); simpl; auto. discriminate.
+  - (* TCancelEff *) apply step_TCancelEff in H. destruct H as (Hc & ->).
+    apply (InvC_same s); simpl; auto.
+Qed.
+
+(* ------------------------------------------------------------------ *)
+(* InvD: calls that begin with a cancelled context                     *)
+(* ------------------------------------------------------------------ *)
+
+Definition is_call (p : wpc) : bool := match p with WCall _ => true | _ => false end.
+
+(* D_win is the counting argument: once the derived context is Done (and the caller's is not), every
+   further cancelled start is one of the workers that already passed its ctx.Err() check (is at WCall);
+   the worker whose error cancelled the context is not among them. *)
+Record InvD (s : st) : Prop := mkInvD {
+  D_live : dctx s = false -> cstarts s = 0;
+  D_win : cctx s <> CDone -> dctx s = true -> pc s = MWait ->
+          cstarts s + cnt is_call (ws s) + 1 <= length (ws s);
+  D_bound : cstarts s + 1 <= length (ws s) \/ cstarts s = 0
+}.
+
+Lemma InvD_init c g : InvD (init c g).
+Proof. constructor; simpl; auto. discriminate. Qed.
+
+Lemma cnt_upd_same {A} (f : A -> bool) l n x y :
+  nth_error l n = Some y -> f x = f y -> cnt f (upd l n x) = cnt f l.
+Proof. intros H E. pose proof (cnt_upd f l n x y H) as Hc. rewrite E in Hc. lia. Qed.
+
+(* a worker moves between pcs that are not WCall; pc, contexts and the counter of cancelled starts are untouched *)
+Lemma InvD_local s s' w p p' :
+  InvD s -> pc s' = pc s -> cctx s' = cctx s -> dctx s' = dctx s -> cstarts s' = cstarts s ->
+  ws s' = upd (ws s) w p' -> nth_error (ws s) w = Some p ->
+  (dctx s = true -> cctx s <> CDone -> is_call p' = is_call p) -> InvD s'.
+Proof.
+  intros HD Ep Ex Ed Ec Ew Hw Hcall.
+  constructor; rewrite ?Ep, ?Ex, ?Ed, ?Ec, ?Ew, ?upd_length.
+  - apply (D_live s HD).
+  - intros Hx Hd Hp. rewrite (cnt_upd_same is_call (ws s) w p' p Hw (Hcall Hd Hx)). apply (D_win s HD Hx Hd Hp).
+  - apply (D_bound s HD).
+Qed.
+
+Lemma InvD_same s s' :
+  InvD s -> (pc s' = MWait -> pc s = MWait) -> (cctx s' <> CDone -> cctx s <> CDone) ->
+  (dctx s = true -> dctx s' = true) -> (dctx s' = true -> cctx s' <> CDone -> pc s' = MWait -> dctx s = true) ->
+  cstarts s' = cstarts s -> ws s' = ws s -> InvD s'.
+Proof.
+  intros HD Ep Ex Ed Ed' Ec Ew.
+  constructor; rewrite ?Ec, ?Ew.
+  - intros H. apply (D_live s HD). destruct (dctx s); [|reflexivity]. rewrite Ed in H; [discriminate|reflexivity].
+  - intros Hx Hd Hp. apply (D_win s HD); auto.
+  - apply (D_bound s HD).
+Qed.
+
+Lemma InvD_step c s l s' : InvA s -> InvB c s -> InvC s -> InvD s -> qstep s l = Some s' -> InvD s'.
+Proof.
+  intros HA HB HC HD H. pose proof (B_cfg c s HB) as Hcfg.
+  destruct l as [| w i b | w i r v | r o | | | i | | w | w | w | w | | ]; simpl qstep in H.
+  - (* LCall *) apply step_LCall in H. destruct H as [Hp ->].
+    destruct (A_idle s HA Hp) as [Ews _].
+    assert (H0 : cstarts s = 0) by (destruct (D_bound s HD) as [Hb|Hb]; [rewrite Ews in Hb; simpl in Hb; lia | exact Hb]).
+    constructor; simpl.
+    + apply (D_live s HD).
+    + intros Hx Hd _. exfalso. destruct (B_dctx c s HB Hd) as [E|(_ & [E|(r & [E|E])])].
+      * contradiction.
+      * apply E. apply (C_idle s HC Hp).
+      * congruence.
+      * congruence.
+    + right. exact H0.
+  - (* LEnter *) apply step_LEnter in H. destruct H as (Hw & Hc & ->).
+    assert (Hpc : pc s = MWait).
+    { destruct (pc s) as [| |r|r] eqn:E; [|reflexivity| |].
+      - destruct (A_idle s HA E) as [E' _]. rewrite E' in Hw. destruct w; discriminate.
+      - destruct (B_retp c s HB r (or_introl E)) as (_ & Hall & _). specialize (Hall w _ Hw). discriminate.
+      - destruct (B_retp c s HB r (or_intror E)) as (_ & Hall & _). specialize (Hall w _ Hw). discriminate. }
+    pose proof (cnt_upd is_call (ws s) w (WIn i) (WCall i) Hw) as Hcnt. simpl in Hcnt.
+    pose proof (cnt_pos is_call (ws s) w (WCall i) Hw eq_refl) as Hpos.
+    constructor; simpl; rewrite ?upd_length.
+    + intros Hd. subst b. rewrite Hd. simpl. rewrite (D_live s HD Hd). reflexivity.
+    + intros Hx Hd _. pose proof (D_win s HD Hx Hd Hpc) as Hwin.
+      destruct (b && negb (cdone (cctx s))); lia.
+    + destruct (b && negb (cdone (cctx s))) eqn:E.
+      * apply andb_true_iff in E. destruct E as [Eb Ex]. subst b.
+        assert (Hx : cctx s <> CDone) by (intros E; rewrite E in Ex; discriminate).
+        pose proof (D_win s HD Hx Eb Hpc) as Hwin. left. lia.
+      * rewrite Nat.add_0_r. apply (D_bound s HD).
+  - (* LExit *) apply step_LExit in H. destruct H as (Hw & Hg & Hr & Hv & ->).
+    eapply (InvD_local s _ w (WIn i)); simpl; eauto.
+    intros _ _. destruct (c_map (cfg s)); [reflexivity|]. destruct r; reflexivity.
+  - (* LRet *) apply step_LRet in H. destruct H as (Hp & Ho & ->).
+    apply (InvD_same s); simpl; auto; discriminate.
+  - (* LCancel *) apply step_LCancel in H. subst s'. apply (InvD_same s); simpl; auto.
+    intros Hx E. apply Hx. rewrite E. reflexivity.
+  - (* LCancelDone *) apply step_LCancelDone in H. destruct H as [_ ->]. exact HD.
+  - (* LRelease *) apply step_LRelease in H. subst s'. apply (InvD_same s); simpl; auto.
+  - (* LQuiesce *) apply qstep_LQuiesce in H. subst s'. exact HD.
+  - (* TFetch *) apply step_TFetch in H. destruct H as (Hw & ->).
+    eapply (InvD_local s _ w WFetch); simpl; eauto.
+    intros Hd Hx. destruct (next s <? c_n (cfg s)); [|reflexivity].
+    destruct (use_eg (cfg s)) eqn:Eu; [reflexivity|].
+    exfalso. destruct (B_dctx c s HB Hd) as [E|(Hu & _)]; [contradiction|]. rewrite Hcfg in Eu. congruence.
+  - (* TCheck *) apply step_TCheck in H. destruct H as (i & Hw & ->).
+    eapply (InvD_local s _ w (WCheck i)); simpl; eauto.
+    intros Hd _. rewrite Hd. reflexivity.
+  - (* TWrite *) apply step_TWrite in H. destruct H as (i & v & r & Hw & ->).
+    eapply (InvD_local s _ w (WWrite i v r)); simpl; eauto.
+    intros _ _. destruct r; reflexivity.
+  - (* TFinish *) apply step_TFinish in H. destruct H as (r & Hw & [(e & -> & He & ->)|(_ & ->)]).
+    + constructor; simpl; rewrite ?upd_length.
+      * intros Hd. apply orb_false_iff in Hd. destruct Hd as [Hd _]. apply (D_live s HD Hd).
+      * intros Hx _ Hp. destruct (dctx s) eqn:Hd.
+        -- rewrite (cnt_upd_same is_call (ws s) w WDone (WRet (Some e)) Hw eq_refl). apply (D_win s HD Hx Hd Hp).
+        -- rewrite (D_live s HD Hd). simpl.
+           pose proof (cnt_lt is_call (upd (ws s) w WDone) w WDone (nth_upd_same _ _ _ _ Hw) eq_refl) as Hlt.
+           rewrite upd_length in Hlt. exact Hlt.
+      * apply (D_bound s HD).
+    + eapply (InvD_local s _ w (WRet r)); simpl; eauto.
+  - (* TWait *) apply step_TWait in H. destruct H as (Hp & Hall & ->).
+    constructor; simpl.
+    + intros Hd. apply orb_false_iff in Hd. destruct Hd as [Hd _]. apply (D_live s HD Hd).
+    + intros _ _ E. discriminate.
+    + apply (D_bound s HD).
+  - (* TCancelEff *) apply step_TCancelEff in H. destruct H as (Hc & ->).
+    constructor; simpl.
+    + intros Hd. apply orb_false_iff in Hd. destruct Hd as [Hd _]. apply (D_live s HD Hd).
+    + intros E. contradiction.
+    + apply (D_bound s HD).
+Qed.
+
+(* ------------------------------------------------------------------ *)
+(* InvP: positional writes                                             *)
+(* ------------------------------------------------------------------ *)
+
+Record InvP (s : st) : Prop := mkInvP {
+  P_out : c_map (cfg s) = true -> forall i r v, In (i, r, v) (finished s) ->
+          (exists w, nth_error (ws s) w = Some (WWrite i v r)) \/ nth_error (out s) i = Some v
+}.
+
+Lemma InvP_init c g : InvP (init c g).
+Proof. constructor; simpl. intros _ i r v H. contradiction. Qed.
+
+Lemma InvP_keep s s' :
+  InvP s -> cfg s' = cfg s -> finished s' = finished s -> out s' = out s ->
+  (forall w i v r, nth_error (ws s) w = Some (WWrite i v r) -> nth_error (ws s') w = Some (WWrite i v r)) ->
+  InvP s'.
+Proof.
+  intros HP Ec Ef Eo Hk. constructor; rewrite Ec, Ef, Eo. intros Hm i r v Hin.
+  destruct (P_out s HP Hm i r v Hin) as [(w & Hw)|H]; [left; exists w; auto | right; exact H].
+Qed.
+
+Lemma keep_upd (wl : list wpc) w p p' :
+  nth_error wl w = Some p -> (forall i v r, p <> WWrite i v r) ->
+  forall w2 i v r, nth_error wl w2 = Some (WWrite i v r) -> nth_error (upd wl w p') w2 = Some (WWrite i v r).
+Proof.
+  intros Hw Hn w2 i v r Hq. rewrite nth_upd. destruct (Nat.eq_dec w w2) as [E|E]; [|exact Hq].
+  subst w2. rewrite Hw in Hq. inversion Hq. exfalso. eapply Hn; eauto.
+Qed.
+
+Lemma fidx_inj (l : list (nat * option nat * Z)) x y :
+  NoDup (map fidx l) -> In x l -> In y l -> fidx x = fidx y -> x = y.
+Proof.
+  induction l as [|h t IH]; intros Hnd Hx Hy E; [contradiction|].
+  simpl in Hnd. inversion Hnd as [|? ? Hh Ht]; subst.
+  destruct Hx as [Hx|Hx], Hy as [Hy|Hy]; subst.
+  - reflexivity.
+  - exfalso. apply Hh. rewrite E. apply in_map. exact Hy.
+  - exfalso. apply Hh. rewrite <- E. apply in_map. exact Hx.
+  - apply IH; auto.
+Qed.
+
+Lemma InvP_step c s l s' : InvA s -> InvB c s -> InvP s -> qstep s l = Some s' -> InvP s'.
+Proof.
+  intros HA HB HP H. pose proof (B_cfg c s HB) as Hcfg.
+  destruct l as [| w i b | w i r v | r o | | | i | | w | w | w | w | | ]; simpl qstep in H.
+  - (* LCall *) apply step_LCall in H. destruct H as [Hp ->].
+    destruct (A_idle s HA Hp) as [Ews _].
+    apply (InvP_keep s); simpl; auto. intros w i v r Hw. rewrite Ews in Hw. destruct w; discriminate.
+  - (* LEnter *) apply step_LEnter in H. destruct H as (Hw & Hc & ->).
+    apply (InvP_keep s); simpl; auto. apply (keep_upd _ _ _ _ Hw). discriminate.
+  - (* LExit *) apply step_LExit in H. destruct H as (Hw & Hg & Hr & Hv & ->).
+    constructor; simpl. intros Hm j r2 v2 Hin. rewrite Hm.
+    apply in_app_iff in Hin. destruct Hin as [Hin|[E|[]]].
+    + destruct (P_out s HP Hm j r2 v2 Hin) as [(w2 & Hq)|Ho]; [left|right; exact Ho].
+      exists w2. apply (keep_upd _ _ _ _ Hw); [discriminate | exact Hq].
+    + inversion E; subst. left. exists w. eapply nth_upd_same; eauto.
+  - (* LRet *) apply step_LRet in H. destruct H as (Hp & Ho & ->). apply (InvP_keep s); simpl; auto.
+  - (* LCancel *) apply step_LCancel in H. subst s'. apply (InvP_keep s); simpl; auto.
+  - (* LCancelDone *) apply step_LCancelDone in H. destruct H as [_ ->]. exact HP.
+  - (* LRelease *) apply step_LRelease in H. subst s'. apply (InvP_keep s); simpl; auto.
+  - (* LQuiesce *) apply qstep_LQuiesce in H. subst s'. exact HP.
+  - (* TFetch *) apply step_TFetch in H. destruct H as (Hw & ->).
+    apply (InvP_keep s); simpl; auto. apply (keep_upd _ _ _ _ Hw). discriminate.
+  - (* TCheck *) apply step_TCheck in H. destruct H as (i & Hw & ->).
+    apply (InvP_keep s); simpl; auto. apply (keep_upd _ _ _ _ Hw). discriminate.
+  - (* TWrite *) apply step_TWrite in H. destruct H as (i & v & r & Hw & ->).
+    pose proof (A_own s HA w _ i Hw eq_refl) as [_ Hin].
+    assert (Hlen : i < length (out s)) by (rewrite (B_out c s HB), <- Hcfg; exact Hin).
+    pose proof (A_wr_fin s HA w i v r Hw) as Hrec.
+    constructor; simpl. intros Hm j r2 v2 Hj.
+    destruct (Nat.eq_dec j i) as [E|E].
+    + subst j. assert (Heq : (i, r2, v2) = (i, r, v)) by (apply (fidx_inj (finished s)); auto; apply (A_fin_nd s HA)).
+      inversion Heq; subst. right. apply nth_error_upd_same. exact Hlen.
+    + destruct (P_out s HP Hm j r2 v2 Hj) as [(w2 & Hq)|Ho].
+      * left. exists w2. rewrite nth_upd. destruct (Nat.eq_dec w w2) as [E2|E2]; [|exact Hq].
+        subst w2. rewrite Hw in Hq. inversion Hq. congruence.
+      * right. rewrite nth_error_upd_other; auto.
+  - (* TFinish *) apply step_TFinish in H. destruct H as (r & Hw & [(e & -> & He & ->)|(_ & ->)]).
+    + apply (InvP_keep s); simpl; auto. apply (keep_upd _ _ _ _ Hw). discriminate.
+    + apply (InvP_keep s); simpl; auto. apply (keep_upd _ _ _ _ Hw). discriminate.
+  - (* TWait *) apply step_TWait in H. destruct H as (Hp & Hall & ->). apply (InvP_keep s); simpl; auto.
+  - (* TCancelEff *) apply step_TCancelEff in H. destruct H as (Hc & ->). apply (InvP_keep s); simpl; auto.
+Qed.
+
+(* ------------------------------------------------------------------ *)
+(* all invariants, every reachable state                               *)
+(* ------------------------------------------------------------------ *)
+
+Definition reach (c : config) (g : list bool) (s : st) : Prop := reachable qstep (init c g) s.
+
+Definition Inv (c : config) (s : st) : Prop := InvA s /\ InvB c s /\ InvC s /\ InvD s /\ InvP s.
+
+Theorem Inv_reach c g s : reach c g s -> Inv c s.
+Proof.
+  apply (invariant_rule qstep (Inv c)).
+  - split; [apply InvA_init|]. split; [apply InvB_init|]. split; [apply InvC_init|].
+    split; [apply InvD_init | apply InvP_init].
+  - intros s0 l s1 (HA & HB & HC & HD & HP) Hs.
+    split; [eapply InvA_step; eauto|]. split; [eapply InvB_step; eauto|].
+    split; [eapply InvC_step; eauto|]. split; [eapply InvD_step; eauto | eapply InvP_step; eauto].
+Qed.
+
+(* ------------------------------------------------------------------ *)
+(* consequences at and after the return                                *)
+(* ------------------------------------------------------------------ *)
+
+Definition returning (s : st) (r : option rerr) : Prop := pc s = MRetp r \/ pc s = MDone r.
+
+(* a call of f (including the positional write of the Map wrappers) is in progress *)
+Definition busy (p : wpc) : bool := match p with WIn _ | WWrite _ _ _ => true | _ => false end.
+Definition inprogress (s : st) : nat := cnt busy (ws s).
+
+Lemma eff_zero c : 1 <= c_gmp c -> eff c = 0 -> c_n c = 0.
+Proof. unfold eff. destruct (c_par c <=? 0)%Z eqn:E; [lia|]. apply Z.leb_gt in E. lia. Qed.
+
+Lemma returning_done c s r : InvB c s -> returning s r ->
+  r = errc s /\ forall w p, nth_error (ws s) w = Some p -> p = WDone.
+Proof. intros HB Hr. destruct (B_retp c s HB r Hr) as (E & Hall & _). auto. Qed.
+
+Lemma returning_bad c s r : InvB c s -> returning s r -> bad s -> r <> None.
+Proof.
+  intros HB Hr Hb. destruct (returning_done c s r HB Hr) as [-> Hall].
+  destruct Hb as [Hb|(w & p & Hw & Hp)]; [exact Hb|]. rewrite (Hall w p Hw) in Hp. discriminate.
+Qed.
+
+(* nil is returned only after every index has been started and finished *)
+Lemma nil_all_run c g s :
+  1 <= c_gmp c -> reach c g s -> returning s None ->
+  (forall i, In i (started s) <-> i < c_n c) /\ (forall i, In i (map fidx (finished s)) <-> i < c_n c).
+Proof.
+  intros Hg Hr Hret. destruct (Inv_reach c g s Hr) as (HA & HB & HC & HD & HP).
+  pose proof (B_cfg c s HB) as Hcfg.
+  destruct (returning_done c s None HB Hret) as [He Hall].
+  assert (Hnb : ~ bad s) by (intros Hb; apply (returning_bad c s None HB Hret Hb); reflexivity).
+  assert (Hp : pc s <> MIdle) by (destruct Hret as [E|E]; rewrite E; discriminate).
+  assert (Hnext : c_n c <= next s).
+  { destruct (nth_error (ws s) 0) as [p0|] eqn:H0.
+    2:{ apply nth_error_None in H0. pose proof (B_len c s HB Hp) as Hl.
+        assert (Hz : eff c = 0) by lia. rewrite (eff_zero c Hg Hz). lia. }
+    - pose proof (Hall 0 p0 H0) as E0. destruct (C_fin s HC 0 p0 H0 (or_intror E0)) as [Hb|Hn]; [contradiction|].
+      rewrite Hcfg in Hn. exact Hn. }
+  assert (Hst : forall i, In i (started s) <-> i < c_n c).
+  { intros i. split.
+    - intros Hi. destruct (A_st_lt s HA i Hi) as [_ H]. rewrite Hcfg in H. exact H.
+    - intros Hi. destruct (C_cov s HC Hnb i) as [H|(w & p & Hw & Hh)]; [lia | rewrite Hcfg; exact Hi | exact H |].
+      rewrite (Hall w p Hw) in Hh. discriminate. }
+  split; [exact Hst|]. intros i. split.
+  - intros Hi. apply in_map_iff in Hi. destruct Hi as (x & <- & Hx). apply Hst. apply (A_fin_st s HA x Hx).
+  - intros Hi. apply Hst in Hi. destruct (A_st_cov s HA i Hi) as [H|(w & Hw)]; [exact H|].
+    specialize (Hall w _ Hw). discriminate.
+Qed.
+
+Lemma noctx_noerr c g s : reach c g s -> c_ctx c = false -> errc s = None.
+Proof.
+  intros Hr Hc. destruct (Inv_reach c g s Hr) as (HA & HB & HC & HD & HP).
+  pose proof (B_cfg c s HB) as Hcfg.
+  destruct (errc s) as [[|k]|] eqn:E; [| |reflexivity].
+  - destruct (C_errC s HC E) as [_ Hu]. unfold use_eg in Hu. rewrite Hcfg, Hc in Hu. discriminate.
+  - destruct (C_errF s HC k E) as (i & v & Hin). rewrite <- Hcfg in Hc.
+    pose proof (C_noerr s HC Hc _ Hin) as Hf. discriminate.
+Qed.
+
+(* ---- C13_exactly_once ---- *)
+Lemma pardo_no_double_start c g s : reach c g s ->
+  NoDup (started s) /\ (forall i, In i (started s) -> i < c_n c) /\ NoDup (map fidx (finished s)).
+Proof.
+  intros Hr. destruct (Inv_reach c g s Hr) as (HA & HB & _). pose proof (B_cfg c s HB) as Hcfg.
+  split; [apply (A_st_nd s HA)|]. split; [|apply (A_fin_nd s HA)].
+  intros i Hi. destruct (A_st_lt s HA i Hi) as [_ H]. rewrite Hcfg in H. exact H.
+Qed.
+
+Lemma pardo_error_source c g s r : reach c g s -> returning s r ->
+  (forall k, r = Some (EF k) -> exists i v, In (i, Some k, v) (finished s)) /\
+  (r = Some ECtx -> cctx s = CDone /\ use_eg c = true).
+Proof.
+  intros Hr Hret. destruct (Inv_reach c g s Hr) as (HA & HB & HC & HD & HP).
+  pose proof (B_cfg c s HB) as Hcfg. destruct (returning_done c s r HB Hret) as [-> _]. split.
+  - apply (C_errF s HC).
+  - intros E. rewrite <- Hcfg. apply (C_errC s HC E).
+Qed.
+
+Lemma pardo_exactly_once c g s r :
+  1 <= c_gmp c -> reach c g s -> returning s r ->
+  (forall x, In x (finished s) -> ferr x = None) ->      (* no call failed *)
+  cctx s <> CDone ->                                      (* the caller's context is (still) not Done *)
+  r = None /\ Permutation (started s) (seq 0 (c_n c)) /\ Permutation (map fidx (finished s)) (seq 0 (c_n c)).
+Proof.
+  intros Hg Hr Hret Hnf Hlive.
+  destruct (pardo_error_source c g s r Hr Hret) as [HF HX].
+  assert (E : r = None).
+  { destruct r as [[|k]|]; [| |reflexivity].
+    - destruct (HX eq_refl) as [E _]. contradiction.
+    - destruct (HF k eq_refl) as (i & v & Hin). specialize (Hnf _ Hin). discriminate. }
+  subst r. split; [reflexivity|].
+  destruct (nil_all_run c g s Hg Hr Hret) as [Hs Hf].
+  destruct (pardo_no_double_start c g s Hr) as (Hnd & _ & Hndf).
+  split; apply NoDup_Permutation; auto using seq_NoDup; intros i; rewrite in_seq; [rewrite Hs | rewrite Hf]; lia.
+Qed.
+
+Lemma pardo_nil_exactly_once c g s :
+  1 <= c_gmp c -> reach c g s -> returning s None ->
+  Permutation (started s) (seq 0 (c_n c)) /\ Permutation (map fidx (finished s)) (seq 0 (c_n c)).
+Proof.
+  intros Hg Hr Hret.
+  destruct (nil_all_run c g s Hg Hr Hret) as [Hs Hf].
+  destruct (pardo_no_double_start c g s Hr) as (Hnd & _ & Hndf).
+  split; apply NoDup_Permutation; auto using seq_NoDup; intros i; rewrite in_seq; [rewrite Hs | rewrite Hf]; lia.
+Qed.
+
+(* ---- C13_bounded ---- *)
+Lemma pardo_bounded c g s : reach c g s ->
+  inprogress s <= eff c /\
+  ((0 < c_par c)%Z -> inprogress s <= Z.to_nat (c_par c)) /\
+  ((c_par c <= 0)%Z -> inprogress s <= c_gmp c).
+Proof.
+  intros Hr. destruct (Inv_reach c g s Hr) as (HA & HB & _).
+  assert (H : inprogress s <= eff c).
+  { unfold inprogress. pose proof (cnt_le busy (ws s)) as Hle.
+    destruct (pc s) eqn:Ep.
+    - destruct (A_idle s HA Ep) as [E _]. rewrite E. simpl. lia.
+    - rewrite <- (B_len c s HB); [exact Hle | congruence].
+    - rewrite <- (B_len c s HB); [exact Hle | congruence].
+    - rewrite <- (B_len c s HB); [exact Hle | congruence]. }
+  split; [exact H|]. unfold eff in H. split; intros Hp.
+  - destruct (c_par c <=? 0)%Z eqn:E; [apply Z.leb_le in E; lia | lia].
+  - destruct (c_par c <=? 0)%Z eqn:E; [lia | apply Z.leb_gt in E; lia].
+Qed.
+
+(* ---- C13_barrier ---- *)
+Lemma pardo_barrier_ret c g s r o s' : reach c g s -> step s (LRet r o) = Some s' ->
+  inprogress s = 0 /\ (forall w p, nth_error (ws s) w = Some p -> p = WDone).
+Proof.
+  intros Hr Hs. destruct (Inv_reach c g s Hr) as (HA & HB & _).
+  apply step_LRet in Hs. destruct Hs as (Hp & _ & _).
+  destruct (returning_done c s r HB (or_introl Hp)) as [_ Hall]. split; [|exact Hall].
+  apply cnt_zero. intros w p Hw. rewrite (Hall w p Hw). reflexivity.
+Qed.
+
+Lemma pardo_barrier_after c g s r : reach c g s -> pc s = MDone r ->
+  (forall w i b, step s (LEnter w i b) = None) /\
+  (forall w p, nth_error (ws s) w = Some p -> p = WDone) /\ inprogress s = 0.
+Proof.
+  intros Hr Hp. destruct (Inv_reach c g s Hr) as (HA & HB & _).
+  destruct (returning_done c s r HB (or_intror Hp)) as [_ Hall].
+  split; [|split; [exact Hall|]].
+  - intros w i b. destruct (step s (LEnter w i b)) as [s'|] eqn:E; [|reflexivity].
+    apply step_LEnter in E. destruct E as (Hw & _). specialize (Hall w _ Hw). discriminate.
+  - apply cnt_zero. intros w p Hw. rewrite (Hall w p Hw). reflexivity.
+Qed.
+
+(* ---- C13_positional ---- *)
+Lemma nth_error_map_seq (f : nat -> Z) (l : list Z) n :
+  length l = n -> (forall i, i < n -> nth_error l i = Some (f i)) -> l = map f (seq 0 n).
+Proof.
+  intros Hl Hn. apply (nth_ext _ _ 0%Z 0%Z).
+  - rewrite map_length, seq_length. exact Hl.
+  - intros i Hi. rewrite Hl in Hi. specialize (Hn i Hi).
+    rewrite (nth_error_nth l i 0%Z Hn).
+    assert (E : nth_error (map f (seq 0 n)) i = Some (f i)).
+    { rewrite nth_error_map. rewrite (nth_error_nth' (seq 0 n) 0) by (rewrite seq_length; exact Hi).
+      rewrite seq_nth by exact Hi. reflexivity. }
+    rewrite (nth_error_nth _ i 0%Z E). reflexivity.
+Qed.
+
+Lemma pardo_positional c g s o s' :
+  1 <= c_gmp c -> c_map c = true -> reach c g s -> step s (LRet None o) = Some s' ->
+  o = Some (out s) /\ length (out s) = c_n c /\
+  (forall i, i < c_n c -> exists v, In (i, None, v) (finished s) /\ nth_error (out s) i = Some v /\
+                                    forall r' v', In (i, r', v') (finished s) -> r' = None /\ v' = v) /\
+  (forall f : nat -> Z, (forall i r v, In (i, r, v) (finished s) -> v = f i) -> out s = map f (seq 0 (c_n c))).
+Proof.
+  intros Hg Hm Hr Hs. destruct (Inv_reach c g s Hr) as (HA & HB & HC & HD & HP).
+  pose proof (B_cfg c s HB) as Hcfg.
+  apply step_LRet in Hs. destruct Hs as (Hp & Ho & _).
+  assert (Hret : returning s None) by (left; exact Hp).
+  destruct (returning_done c s None HB Hret) as [He Hall].
+  destruct (nil_all_run c g s Hg Hr Hret) as [_ Hf].
+  assert (Hnf : forall x, In x (finished s) -> ferr x = None).
+  { intros x Hx. destruct (ferr x) eqn:E; [|reflexivity]. exfalso.
+    apply (returning_bad c s None HB Hret); [|reflexivity]. apply (C_failrec s HC x Hx). congruence. }
+  assert (Hpos : forall i r v, In (i, r, v) (finished s) -> nth_error (out s) i = Some v).
+  { intros i r v Hin. rewrite <- Hcfg in Hm. destruct (P_out s HP Hm i r v Hin) as [(w & Hw)|H]; [|exact H].
+    specialize (Hall w _ Hw). discriminate. }
+  assert (Hex : forall i, i < c_n c -> exists v, In (i, None, v) (finished s)).
+  { intros i Hi. apply Hf in Hi. apply in_map_iff in Hi. destruct Hi as ([[j r] v] & Ej & Hin).
+    unfold fidx in Ej. simpl in Ej. subst j. pose proof (Hnf _ Hin) as E. unfold ferr in E. simpl in E. subst r.
+    exists v. exact Hin. }
+  split.
+  - rewrite Ho. unfold ret_out. rewrite Hcfg, Hm. destruct (c_ctx c); reflexivity.
+  - split; [apply (B_out c s HB)|]. split.
+    + intros i Hi. destruct (Hex i Hi) as (v & Hin). exists v. split; [exact Hin|]. split; [apply (Hpos i None v Hin)|].
+      intros r' v' Hin'. assert (E : (i, r', v') = (i, None, v)) by (apply (fidx_inj (finished s)); auto; apply (A_fin_nd s HA)).
+      inversion E; auto.
+    + intros f Hfv. apply nth_error_map_seq; [apply (B_out c s HB)|].
+      intros i Hi. destruct (Hex i Hi) as (v & Hin). rewrite (Hpos i None v Hin). f_equal. apply (Hfv i None v Hin).
+Qed.
+
+(* ---- C13_error_contract ---- *)
+Lemma pardo_error_contract c g s r : reach c g s -> returning s r ->
+  (* the error was returned by a call of f ... *)
+  (forall k, r = Some (EF k) -> exists i v, In (i, Some k, v) (finished s)) /\
+  (* ... or is the caller's context error: only when the caller's context is Done, and only on the
+     parallel path (the sequential path never looks at the context) *)
+  (r = Some ECtx -> cctx s = CDone /\ use_eg c = true) /\
+  (* the derived context is cancelled before the return (parallel path of the context API) *)
+  (use_eg c = true -> dctx s = true) /\
+  (* nil only if no started call failed; the context-free API never returns an error *)
+  (r = None -> forall x, In x (finished s) -> ferr x = None) /\
+  (c_ctx c = false -> r = None) /\
+  (* sequential path: at most one call failed, and its error is the one returned *)
+  (seqm c = true -> (forall x y, In x (finished s) -> In y (finished s) -> ferr x <> None -> ferr y <> None -> x = y) /\
+                    (forall i k v, In (i, Some k, v) (finished s) -> r = Some (EF k))).
+Proof.
+  intros Hr Hret. destruct (Inv_reach c g s Hr) as (HA & HB & HC & HD & HP).
+  pose proof (B_cfg c s HB) as Hcfg.
+  destruct (pardo_error_source c g s r Hr Hret) as [HF HX].
+  destruct (B_retp c s HB r Hret) as (He & Hall & Hd).
+  split; [exact HF|]. split; [exact HX|]. split; [exact Hd|]. split; [|split].
+  - intros -> x Hx. destruct (ferr x) eqn:E; [|reflexivity]. exfalso.
+    apply (returning_bad c s None HB Hret); [|reflexivity]. apply (C_failrec s HC x Hx). congruence.
+  - intros Hc. rewrite He. apply (noctx_noerr c g s Hr Hc).
+  - intros Hs. rewrite <- Hcfg in Hs. split; [apply (C_seqfail s HC Hs)|].
+    intros i k v Hin.
+    assert (Hb : bad s) by (apply (C_failrec s HC _ Hin); discriminate).
+    pose proof (returning_bad c s r HB Hret Hb) as Hne.
+    destruct r as [[|k']|]; [| |congruence].
+    + destruct (HX eq_refl) as [_ Hu]. unfold use_eg in Hu. rewrite Hcfg in Hs. rewrite Hs in Hu.
+      rewrite andb_false_r in Hu. discriminate.
+    + destruct (HF k' eq_refl) as (i' & v' & Hin').
+      assert (E : (i, Some k, v) = (i', Some k', v')) by (apply (C_seqfail s HC Hs); auto; discriminate).
+      inversion E; reflexivity.
+Qed.
+
+(* ---- C13_cancelled_starts ---- *)
+Lemma pardo_cancelled_starts c g s : reach c g s -> cstarts s <= eff c - 1.
+Proof.
+  intros Hr. destruct (Inv_reach c g s Hr) as (HA & HB & HC & HD & HP).
+  destruct (D_bound s HD) as [H|H]; [|lia].
+  destruct (pc s) eqn:Ep.
+  - destruct (A_idle s HA Ep) as [E _]. rewrite E in H. simpl in H. lia.
+  - rewrite (B_len c s HB) in H; [lia | congruence].
+  - rewrite (B_len c s HB) in H; [lia | congruence].
+  - rewrite (B_len c s HB) in H; [lia | congruence].
+Qed.
+
+(* what the ghost counter counts: calls entered with a Done context while the caller's context is not Done *)
+Lemma cstarts_spec s l s' : qstep s l = Some s' ->
+  cstarts s' = cstarts s + match l with
+                           | LEnter _ _ true => if cdone (cctx s) then 0 else 1
+                           | _ => 0
+                           end.
+Proof.
+  intros H.
+  destruct l as [| w i b | w i r v | r o | | | i | | w | w | w | w | | ]; simpl qstep in H.
+  - apply step_LCall in H. destruct H as [_ ->]. simpl. lia.
+  - apply step_LEnter in H. destruct H as (_ & _ & ->). simpl. destruct b; simpl; [|lia]. destruct (cdone (cctx s)); simpl; lia.
+  - apply step_LExit in H. destruct H as (_ & _ & _ & _ & ->). simpl. lia.
+  - apply step_LRet in H. destruct H as (_ & _ & ->). simpl. lia.
+  - apply step_LCancel in H. subst s'. simpl. lia.
+  - apply step_LCancelDone in H. destruct H as [_ ->]. lia.
+  - apply step_LRelease in H. subst s'. simpl. lia.
+  - apply qstep_LQuiesce in H. subst s'. lia.
+  - apply step_TFetch in H. destruct H as (_ & ->). simpl. lia.
+  - apply step_TCheck in H. destruct H as (i & _ & ->). simpl. lia.
+  - apply step_TWrite in H. destruct H as (i & v & r & _ & ->). simpl. lia.
+  - apply step_TFinish in H. destruct H as (r & _ & [(e & _ & _ & ->)|(_ & ->)]); simpl; lia.
+  - apply step_TWait in H. destruct H as (_ & _ & ->). simpl. lia.
+  - apply step_TCancelEff in H. destruct H as (_ & ->). simpl. lia.
+Qed.
+
+(* ------------------------------------------------------------------ *)
+(* C13_terminates: progress and variant                                *)
+(* ------------------------------------------------------------------ *)
+
+(* steps of the library (and of f returning / cancel() taking effect): everything except the
+   controller's Call / Cancel / CancelDone / Release / Quiesce *)
+Definition lib_label (l : lab) : bool :=
+  match l with
+  | LEnter _ _ _ | LExit _ _ _ _ | LRet _ _ | TFetch _ | TCheck _ | TWrite _ | TFinish _ | TWait | TCancelEff => true
+  | _ => false
+  end.
+
+Definition thread_of (l : lab) : option nat :=
+  match l with
+  | LEnter w _ _ | LExit w _ _ _ | TFetch w | TCheck w | TWrite w | TFinish w => Some w
+  | _ => None
+  end.
+
+(* every unfinished worker can take a step of its own, unless it is inside f and the scenario holds f's gate closed *)
+Lemma pardo_progress_worker s w p :
+  nth_error (ws s) w = Some p -> p <> WDone ->
+  (exists l, lib_label l = true /\ thread_of l = Some w /\ step s l <> None) \/
+  (exists i, p = WIn i /\ gate_open s i = false).
+Proof.
+  intros Hw Hnd. destruct p as [|i|i|i|i v r|r|].
+  - left. exists (TFetch w). simpl. rewrite Hw. repeat split; discriminate.
+  - left. exists (TCheck w). simpl. rewrite Hw. repeat split; discriminate.
+  - left. exists (LEnter w i (dctx s)). simpl. rewrite Hw, Nat.eqb_refl, eqb_reflx. repeat split; discriminate.
+  - destruct (gate_open s i) eqn:Hg; [left | right; eauto].
+    exists (LExit w i None 0%Z). simpl. rewrite Hw, Nat.eqb_refl, Hg. simpl.
+    rewrite !orb_true_r. repeat split; discriminate.
+  - left. exists (TWrite w). simpl. rewrite Hw. repeat split; discriminate.
+  - left. exists (TFinish w). simpl. rewrite Hw. repeat split; try reflexivity.
+    destruct r; [destruct (errc s)|]; discriminate.
+  - congruence.
+Qed.
+
+Lemma ozlist_eqb_refl a : ozlist_eqb a a = true.
+Proof. destruct a; simpl; [apply zlist_eqb_refl | reflexivity]. Qed.
+
+(* a pending call can always move: some library step is enabled, or a call of f is being held by the scenario *)
+Lemma pardo_progress s :
+  pc s = MWait \/ (exists r, pc s = MRetp r) ->
+  (exists l, lib_label l = true /\ step s l <> None) \/
+  (exists w i, nth_error (ws s) w = Some (WIn i) /\ gate_open s i = false).
+Proof.
+  intros [Hp|(r & Hp)].
+  - destruct (forallb_or_witness is_done (ws s)) as [Hall|(w & p & Hw & Hd)].
+    + left. exists TWait. simpl. rewrite Hp, Hall. split; [reflexivity|discriminate].
+    + assert (Hnd : p <> WDone) by (intros ->; discriminate).
+      destruct (pardo_progress_worker s w p Hw Hnd) as [(l & Hl & _ & He)|(i & -> & Hg)].
+      * left. exists l. auto.
+      * right. exists w, i. auto.
+  - left. exists (LRet r (ret_out s r)). simpl. rewrite Hp, orerr_eqb_refl, ozlist_eqb_refl.
+    split; [reflexivity|discriminate].
+Qed.
+
+Definition wrank (p : wpc) : nat :=
+  match p with
+  | WDone => 0 | WRet _ => 1 | WFetch => 2 | WWrite _ _ _ => 3 | WIn _ => 4 | WCall _ => 5 | WCheck _ => 6
+  end.
+Fixpoint wsum (l : list wpc) : nat := match l with [] => 0 | p :: t => wrank p + wsum t end.
+Definition mrank (p : mpc) : nat := match p with MIdle => 3 | MWait => 2 | MRetp _ => 1 | MDone _ => 0 end.
+Definition crank (c : cstate) : nat := match c with CReq => 1 | _ => 0 end.
+
+(* the variant: 6 per index not yet handed out, plus the distance of every thread from its end *)
+Definition mu (s : st) : nat :=
+  6 * (c_n (cfg s) - next s) + wsum (ws s) + mrank (pc s) + crank (cctx s).
+
+Lemma wsum_upd l w p p' : nth_error l w = Some p -> wsum (upd l w p') + wrank p = wsum l + wrank p'.
+Proof.
+  revert w; induction l as [|h t IH]; intros [|w] H; simpl in *; try discriminate.
+  - inversion H; subst. lia.
+  - specialize (IH w H). lia.
+Qed.
+
+Lemma pardo_variant s l s' : step s l = Some s' -> lib_label l = true -> mu s' < mu s.
+Proof.
+  intros H Hl. unfold mu.
+  destruct l as [| w i b | w i r v | r o | | | i | | w | w | w | w | | ]; try discriminate.
+  - apply step_LEnter in H. destruct H as (Hw & _ & ->). simpl.
+    pose proof (wsum_upd (ws s) w _ (WIn i) Hw) as E. simpl in E. lia.
+  - apply step_LExit in H. destruct H as (Hw & _ & _ & _ & ->). simpl.
+    pose proof (wsum_upd (ws s) w _ (if c_map (cfg s) then WWrite i v r else after_call r) Hw) as E. simpl in E.
+    destruct (c_map (cfg s)); [|destruct r]; simpl; simpl in E; lia.
+  - apply step_LRet in H. destruct H as (Hp & _ & ->). simpl. rewrite Hp. simpl. lia.
+  - apply step_TFetch in H. destruct H as (Hw & ->). simpl.
+    pose proof (wsum_upd (ws s) w _ (if next s <? c_n (cfg s) then if use_eg (cfg s) then WCheck (next s) else WCall (next s) else WRet None) Hw) as E.
+    simpl in E. destruct (next s <? c_n (cfg s)) eqn:El.
+    + apply Nat.ltb_lt in El. destruct (use_eg (cfg s)); simpl; simpl in E; lia.
+    + apply Nat.ltb_ge in El. simpl in E. lia.
+  - apply step_TCheck in H. destruct H as (i & Hw & ->). simpl.
+    pose proof (wsum_upd (ws s) w _ (if dctx s then WRet (Some ECtx) else WCall i) Hw) as E. simpl in E.
+    destruct (dctx s); simpl; simpl in E; lia.
+  - apply step_TWrite in H. destruct H as (i & v & r & Hw & ->). simpl.
+    pose proof (wsum_upd (ws s) w _ (after_call r) Hw) as E. simpl in E. destruct r; simpl; simpl in E; lia.
+  - apply step_TFinish in H. destruct H as (r & Hw & [(e & _ & _ & ->)|(_ & ->)]); simpl;
+      pose proof (wsum_upd (ws s) w _ WDone Hw) as E; simpl in E; lia.
+  - apply step_TWait in H. destruct H as (Hp & _ & ->). simpl. rewrite Hp. simpl. lia.
+  - apply step_TCancelEff in H. destruct H as (Hc & ->). simpl. rewrite Hc. simpl. lia.
+Qed.
+
+(* the controller's Cancel / CancelDone / Release / Quiesce never add work for the library, except that a
+   Cancel adds the one step in which it takes effect *)
+Lemma pardo_variant_env s l s' : qstep s l = Some s' ->
+  match l with LCancel => mu s' <= mu s + 1 | LCancelDone | LRelease _ | LQuiesce => mu s' = mu s | _ => True end.
+Proof.
+  intros H. destruct l; auto.
+  - apply step_LCancel in H. subst s'. unfold mu. simpl. destruct (cctx s); simpl; lia.
+  - apply step_LCancelDone in H. destruct H as [_ ->]. reflexivity.
+  - apply step_LRelease in H. subst s'. reflexivity.
+  - apply qstep_LQuiesce in H. subst s'. reflexivity.
+Qed.
+
+(* ------------------------------------------------------------------ *)
+(* the matcher's eager steps are genuine steps                         *)
+(* ------------------------------------------------------------------ *)
+
+Lemma qstep_tau s l : vis l = None -> qstep s l = step s l.
+Proof. destruct l; simpl; try discriminate; reflexivity. Qed.
+
+Lemma safe_of_tau will s w p l : safe_of will s w p = Some l -> vis l = None.
+Proof.
+  destruct p as [|i|i|i|i v r|r|]; simpl; try discriminate.
+  - intros H; inversion H; reflexivity.
+  - destruct (dctx s || nth i will false); [|discriminate]. intros H; inversion H; reflexivity.
+  - intros H; inversion H; reflexivity.
+  - destruct r; [destruct (is_none (errc s)); [discriminate|]|]; intros H; inversion H; reflexivity.
+Qed.
+
+Lemma first_safe_tau will s l : forall w x, first_safe will s w l = Some x -> vis x = None.
+Proof.
+  induction l as [|p t IH]; intros w x; simpl; [discriminate|].
+  destruct (safe_of will s w p) eqn:E.
+  - intros H; inversion H; subst. eapply safe_of_tau; eauto.
+  - apply IH.
+Qed.
+
+Lemma safe_tau_tau will s x : safe_tau will s = Some x -> vis x = None.
+Proof.
+  unfold safe_tau. destruct (first_safe will s 0 (ws s)) eqn:E.
+  - intros H; inversion H; subst. eapply first_safe_tau; eauto.
+  - destruct (pc s); try discriminate. destruct (forallb is_done (ws s)); [|discriminate].
+    intros H; inversion H; reflexivity.
+Qed.
+
+Lemma settle_run will f : forall s, exists ls, Forall (fun l => vis l = None) ls /\ run qstep s ls = Some (settle will f s).
+Proof.
+  induction f as [|f IH]; intros s; simpl.
+  - exists []. split; [constructor | reflexivity].
+  - destruct (safe_tau will s) as [l|] eqn:E; [|exists []; split; [constructor | reflexivity]].
+    destruct (step s l) as [s1|] eqn:Es; [|exists []; split; [constructor | reflexivity]].
+    destruct (IH s1) as (ls & Hf & Hr). exists (l :: ls). pose proof (safe_tau_tau will s l E) as Hv. split.
+    + constructor; assumption.
+    + simpl. rewrite (qstep_tau s l Hv), Es. exact Hr.
+Qed.
+
+(* a step of the matcher is the label followed by internal steps of the model *)
+Lemma mstep_run will s l s' : mstep will s l = Some s' ->
+  exists ls, Forall (fun x => vis x = None) ls /\ run qstep s (l :: ls) = Some s'.
+Proof.
+  unfold mstep. destruct (qstep s l) as [s1|] eqn:E; [|discriminate]. intros H; inversion H; subst s'.
+  destruct (settle_run will (settle_fuel s1) s1) as (ls & Hf & Hr). exists ls. split; [exact Hf|].
+  simpl. rewrite E. exact Hr.
+Qed.
+
+Corollary mstep_reach will c g s l s' : reach c g s -> mstep will s l = Some s' -> reach c g s'.
+Proof.
+  intros [ls0 H0] H. destruct (mstep_run will s l s' H) as (ls & _ & Hr).
+  exists (ls0 ++ l :: ls). rewrite run_app, H0. exact Hr.
+Qed.
+
+(* ------------------------------------------------------------------ *)
+(* non-vacuity: concrete runs of the model                             *)
+(* ------------------------------------------------------------------ *)
+
+Definition view (s : st) := (pc s, out s, started s, map fidx (finished s), cstarts s).
+
+(* MapContext, n = 3, parallelism 2: every index once, late result first, positional output *)
+Definition ex_cfg_map := mkCfg true true 3 2%Z 8.
+Definition ex_run_map : list lab :=
+  [LCall; TFetch 0; TCheck 0; LEnter 0 0 false; TFetch 1; TCheck 1; LEnter 1 1 false;
+   LExit 1 1 None 11%Z; TWrite 1; TFetch 1; TCheck 1; LEnter 1 2 false; LExit 1 2 None 12%Z; TWrite 1;
+   TFetch 1; TFinish 1; LRelease 0; LExit 0 0 None 10%Z; TWrite 0; TFetch 0; TFinish 0; TWait;
+   LRet None (Some [10; 11; 12]%Z)].
+Example ex_map_runs :
+  option_map view (run qstep (init ex_cfg_map [true; false; false]) ex_run_map)
+  = Some (MDone None, [10; 11; 12]%Z, [0; 1; 2], [1; 2; 0], 0).
+Proof. vm_compute. reflexivity. Qed.
+
+Lemma ex_map_reach : exists s, reach ex_cfg_map [true; false; false] s /\ returning s None /\ c_map ex_cfg_map = true.
+Proof.
+  destruct (run qstep (init ex_cfg_map [true; false; false]) ex_run_map) as [s|] eqn:E; [|vm_compute in E; discriminate].
+  exists s. split; [exists ex_run_map; exact E|]. split; [|reflexivity].
+  right. vm_compute in E. inversion E; reflexivity.
+Qed.
+
+(* DoContext, n = 4, parallelism 2: f(0) fails after worker 1 has passed its ctx.Err() check: exactly
+   parallelism - 1 = 1 call begins with a cancelled context; index 2 is handed out but never run; index 3 never *)
+Definition ex_cfg_err := mkCfg true false 4 2%Z 8.
+Definition ex_run_err : list lab :=
+  [LCall; TFetch 0; TCheck 0; LEnter 0 0 false; TFetch 1; TCheck 1; LExit 0 0 (Some 7) 0%Z; TFinish 0;
+   LEnter 1 1 true; LExit 1 1 None 0%Z; TFetch 1; TCheck 1; TFinish 1; TWait; LRet (Some (EF 7)) None].
+Example ex_err_runs :
+  option_map (fun s => (pc s, started s, cstarts s, dctx s, eff (cfg s) - 1))
+             (run qstep (init ex_cfg_err []) ex_run_err)
+  = Some (MDone (Some (EF 7)), [0; 1], 1, true, 1).
+Proof. vm_compute. reflexivity. Qed.
+
+(* the sequential path (parallelism 1) never looks at the context: with an already cancelled context
+   every index is still run, each call sees the cancelled context, and nil is returned *)
+Definition ex_cfg_seq := mkCfg true false 2 1%Z 8.
+Definition ex_run_seq : list lab :=
+  [LCancel; TCancelEff; LCancelDone; LCall; TFetch 0; LEnter 0 0 true; LExit 0 0 None 0%Z; TFetch 0;
+   LEnter 0 1 true; LExit 0 1 None 0%Z; TFetch 0; TFinish 0; TWait; LRet None None].
+Example ex_seq_ignores_ctx :
+  option_map (fun s => (pc s, started s, cstarts s, cctx s))
+             (run qstep (init ex_cfg_seq []) ex_run_seq)
+  = Some (MDone None, [0; 1], 0, CDone).
+Proof. vm_compute. reflexivity. Qed.
+
+(* the parallel path with an already cancelled context starts nothing and returns the context error *)
+Definition ex_cfg_pre := mkCfg true false 2 2%Z 8.
+Definition ex_run_pre : list lab :=
+  [LCancel; TCancelEff; LCancelDone; LCall; TFetch 0; TFetch 1; TCheck 0; TCheck 1; TFinish 1; TFinish 0; TWait;
+   LRet (Some ECtx) None; LQuiesce].
+Example ex_pre_cancelled :
+  option_map (fun s => (pc s, started s, errc s)) (run qstep (init ex_cfg_pre []) ex_run_pre)
+  = Some (MDone (Some ECtx), [], Some ECtx).
+Proof. vm_compute. reflexivity. Qed.
+
+(* the matcher accepts exactly such histories and rejects a second cancelled start *)
+Example ex_matcher_accepts :
+  accepts_history ex_cfg_err []
+    [ECall; EEnter 0 false; EExit 0 (Some 7) 0%Z; EEnter 1 true; EExit 1 None 0%Z; ERet (Some (EF 7)) None; EQuiesce] = true.
+Proof. vm_compute. reflexivity. Qed.
+
+Example ex_matcher_rejects :
+  first_rejected ex_cfg_err []
+    [ECall; EEnter 0 false; EExit 0 (Some 7) 0%Z; EEnter 1 true; EExit 1 None 0%Z; EEnter 2 true] = Some 5.
+Proof. vm_compute. reflexivity. Qed.
